@@ -1355,9 +1355,10 @@ func handleZUNIONSTORE(params internal.HandlerFuncParams) ([]byte, error) {
 
 	destination := k.WriteKeys[0]
 
-	// Remove the destination key (the first argument only: it may also be one of the source keys)
-	// from a copy of the command before parsing it.
-	params.Command = append([]string{params.Command[0]}, params.Command[2:]...)
+	// Remove destination key from list of keys
+	params.Command = slices.DeleteFunc(params.Command, func(s string) bool {
+		return s == destination
+	})
 
 	keys, weights, aggregate, _, err := extractKeysWeightsAggregateWithScores(params.Command)
 	if err != nil {
